@@ -11,15 +11,19 @@
 
   * Tasks. Root tasks (`Root`, the list `spawn_tasks` returns), the one "core" task (`authenticator`),
     the orchestrator's ensemble tasks (`Task.sub i`: resource watchers, peering watchers, peering
-    keep-alives), per-object workers owned by a watcher, daemons, and the `stop-flag waiter` helper.
-    Every guarded task starts in `waitingFlag` (`guard(flag=started_flag)`), the three unguarded ones
-    (`stop_flag_checker`, `ultimate_termination`, `startup_cleanup_activities`) in `running`.
+    keep-alives), per-object workers owned by a watcher, daemons, the `stop-flag waiter` helper, and
+    "orphans": helper tasks a cancelled root task leaves behind (the `as_completed` children of
+    `scan_resources`, the scheduler tasks of a crashed `daemon_killer`) — they can still act, and are hung
+    tasks for `run_tasks`. Every guarded task starts in `waitingFlag` (`guard(flag=started_flag)`), the three
+    unguarded ones (`stop_flag_checker`, `ultimate_termination`, `startup_cleanup_activities`) in `running`.
   * `task.cancel()` is a REQUEST (`creq`); the task acts on it in a later segment of its own:
     a flag-waiting guard ends `cancelled` without ever running its coroutine; `stop_flag_checker` and
     `ultimate_termination` swallow the cancellation and end `done`; a watcher goes through its
     `finally:` (`stopping`: depletion of the workers for at most `exit_timeout`, then
     `scheduler.close()`); a keep-alive withdraws the peering record in its `finally:`; the
-    orchestrator cancels and awaits its ensemble; `daemon_killer` spawns the exit stoppers.
+    orchestrator cancels and awaits its ensemble; `daemon_killer` spawns the exit stoppers and awaits them
+    (`stopping`, at most `D`) — or crashes there (`stopping true`: "dictionary changed size during
+    iteration", finding C20-F4) and ends `failed`.
   * Escalation edges AS THE CODE HAS THEM:
       worker failed     → its watcher (`werr`, `creq`)  → the watcher ends `failed` (RuntimeError);
       watcher of a root observer failed  = that root task failed → `run_tasks` stops everything;
@@ -30,10 +34,12 @@
     "instantaneous" is pending (`urgent`): an undelivered cancellation of a live task (tasks honour
     cancellation), a wait whose condition already holds, a timed wait whose deadline is reached.
     The timed waits of the shutdown path: worker depletion (`E` = `settings.queueing.exit_timeout`),
-    peering withdrawal (`W`), the cleanup activity (`C`, an ASSUMED bound: kopf sets none),
+    peering withdrawal (`W`), exit stoppers of daemons (`D` = max `cancellation_backoff +
+    cancellation_timeout`), the cleanup activity (`C`, an ASSUMED bound: kopf sets none),
     hung tasks (`H` = the hard-coded 5 s of `run_tasks`).
   Not modelled: a second cancellation of `operator()` while it is already stopping (one stop trigger
-  per run), the liveness endpoint and `_command` tasks, failures of the orchestrator's own loop.
+  per run), the liveness endpoint and `_command` tasks, failures of the orchestrator's own loop,
+  which worker spawned which daemon, which root task left which orphan behind.
 -/
 namespace Kopf.C20
 
